@@ -77,6 +77,15 @@ Theorem c18_suffix_budget_sound : forall p s w,
   wf p = true -> constant_suffix_b p = Some s -> accepts p w -> exists pre, w = pre ++ s.
 Proof. exact constant_suffix_b_sound. Qed.
 
+(* out of budget = "unknown": no suffix is claimed; a non-empty claimed suffix is the one the walk without budget computes.
+   (AcceptedLength and Prog.Prefix have no budget: c18_accepted_length_total, the prefix walk is structural.) *)
+Theorem c18_suffix_budget_exhausted : forall p,
+  sufwalkB p (alt_fuel p) SUFFIX_BUDGET (start p) [] [] = SBudget -> constant_suffix_b p = Some [].
+Proof. exact constant_suffix_b_exhausted. Qed.
+
+Theorem c18_suffix_budget_within : forall p s, constant_suffix_b p = Some s -> s <> [] -> constant_suffix p = Some s.
+Proof. exact constant_suffix_b_within. Qed.
+
 (* ---- the acceptor used by the correspondence check only accepts accepted words *)
 Theorem c18_acceptor_sound : forall p w, accepts_b p w = true -> accepts p w.
 Proof. exact accepts_b_sound. Qed.
